@@ -517,6 +517,12 @@ partial def go (C : Cfg) (H : Hooks) (d : DSt) : List String → Verdict
             match ep.open_ with
             | some (op, args, b) => go C H (d.setEp { ep with open_ := some (op, args, b.add ev) }) rest
             | none => go C H d rest
+    | "upgrade" :: who :: _ =>
+      -- a buffered endpoint used synchronously so far is handed to a driver of its own (scen/tls.cpp): from now on the
+      -- correspondence replays it through the asynchronous layer of the model, on the SAME glue state
+      match d.ep? who with
+      | some ep => go C H (d.setEp { ep with kind := "async", driver := "d" ++ who, a := {} }) rest
+      | none => go C H d rest
     | "setup" :: kvs =>
       let m := kvOf kvs
       let eps := H.setup m
